@@ -188,7 +188,15 @@ class Lit:
         return acc
 
     # ------------------------------------------------------------------ restricted graph
+    cut_edges: Set[Tuple[int, int]] = frozenset()  # (block, successor block) pairs removed from the graph
+
     def restrict(self, val: Dict[str, Any]):
+        ok, leaf, kind, succ = self._restrict(val)
+        if self.cut_edges:
+            succ = [[x for x in succ[b] if (b, x) not in self.cut_edges] for b in range(self.nb)]
+        return ok, leaf, kind, succ
+
+    def _restrict(self, val: Dict[str, Any]):
         g = self.g
         ok = [True] * self.nb
         leaf = [False] * self.nb  # accepting leaf
